@@ -44,11 +44,28 @@ let parse_fexpr (s : string) : fexpr =
 
 (* record types: A = record with a tag attribute (id 0), B = record without one (id 1) *)
 let rec_id (c : char) : nat = match c with 'A' -> nat_of_int 0 | 'B' -> nat_of_int 1 | _ -> raise Bad
-(* "<idx>/<filter>/<members>/<record type>" *)
+(* sink shape: c | v | r leaves, ( … ) a sequence, possibly nested; the top level is a sequence *)
+let parse_sinks (s : string) : sinks =
+  let n = String.length s in
+  let rec go i =
+    if i >= n then raise Bad else
+    match s.[i] with
+    | 'c' -> (SLeaf MConstRef, i + 1)
+    | 'v' -> (SLeaf MByValue, i + 1)
+    | 'r' -> (SLeaf MRvalue, i + 1)
+    | '(' -> let rec members i acc =
+               if i >= n then raise Bad
+               else if s.[i] = ')' then (SSeq (List.rev acc), i + 1)
+               else let (m, j) = go i in members j (m :: acc) in
+             members (i + 1) []
+    | _ -> raise Bad in
+  let (t, j) = go 0 in
+  (match t with SSeq _ when j = n -> t | _ -> raise Bad)
+(* "<idx>/<filter>/<sink shape>/<record type>" *)
 let parse_logger (w : string) : logger =
   match String.split_on_char '/' w with
   | [_; f; m; r] when String.length r = 1 ->
-      { lg_rec = rec_id r.[0]; lg_tagged = (r = "A"); lg_filter = parse_fexpr f; lg_sinks = nat_of_int (int_of_string m) }
+      { lg_rec = rec_id r.[0]; lg_tagged = (r = "A"); lg_filter = parse_fexpr f; lg_sink = parse_sinks m }
   | _ -> raise Bad
 
 let parse_tag (w : string) : str option = if w = "~" then None else Some (str_of_hex w)
